@@ -359,6 +359,74 @@ def partitioned_seq_cases(ctx):
             cases.append((prog, ('>0' + '1b2c3d4e5f' * 7) * 22, ('2', '8', 'o', '3', mask)))
     return cases
 
+def project_wq(raw, napp):
+    """every hooked access to the work queue's flags word, in memory order -> action lines of Fork/WqPause.v (wqexec).  The flags word is recognised as the location
+    on which a thread raises PAUSE (or ... v=4); accesses by application threads are the forking side's, accesses by library-created threads the worker's;
+    CH = the fork child re-creates the worker (note forkchild followed by the creation of a thread)."""
+    PAUSE, PAUSED = 4, 8
+    flags = None
+    for l in raw.splitlines():
+        p = l.split()
+        if len(p) >= 4 and p[0].isdigit() and p[1] == 'or' and p[3].startswith('v=') and int(p[3][2:], 0) == PAUSE: flags = p[2]; break
+    out = ['T']
+    if flags is None: return out + ['.']
+    child_pending = False
+    for l in raw.splitlines():
+        p = l.split()
+        if len(p) < 3 or not p[0].isdigit(): continue
+        t, k = int(p[0]), p[1]; side = 'F' if t < napp else 'W'
+        if k == 'note' and p[2] == 'forkchild': out.append('CH'); continue
+        if len(p) < 3 or p[2] != flags: continue
+        if k == 'or':
+            v = int(p[3][2:], 0)
+            if v == PAUSE and side == 'F': out.append('FO')
+            elif v == PAUSED and side == 'W': out.append('WO')
+            elif v not in (1, 2): out.append('?? ' + l)
+        elif k == 'and':
+            v = int(p[3][2:], 0) & 0xffffffff
+            if v == (~PAUSE & 0xffffffff) and side == 'F': out.append('FA')
+            elif v == (~PAUSED & 0xffffffff) and side == 'W': out.append('WA')
+            else: out.append('?? ' + l)
+        elif k == 'load':
+            v = int(p[-1], 0)
+            out.append('%sL %d %d' % (side, 1 if v & PAUSE else 0, 1 if v & PAUSED else 0))
+    out.append('.')
+    return out
+
+def run_wq(ctx, impl, driver):
+    """C16: the fork bracket of the hash table's work queue under the scheduler, first process and fork child (second generation), with the worker busy in an automatic
+    resize when the bracket starts: the flag accesses are fed to Fork/WqPause.v's acceptor; at each fork point no library thread may hold the table's resize mutex"""
+    cases = []
+    cfg = ['1', '8', 'o', '0', '0', '1']
+    for prog in ('A0A3A4A5A6F/A7A8A9', 'A0A3A4A5GA6F/A7A8A9', 'A0A3A4GA5GA6F/A7A8'):
+        for k in range(0, 120 if ctx.quick() else 300, 4 if ctx.quick() else 1):
+            cases.append((prog, '0a' * 30 + '1b' * 20 + '2c' * k + '0a1b2c3d4e' * 400))
+            cases.append((prog, '0a1b' * 15 + '2c' * k + '0a2c3d4e' * 300 + '1b' * 60 + '0a1b2c3d4e' * 200))
+    rs = run_many([[impl, p, s] + cfg for p, s in cases], timeout=30)
+    blocks = []; nor = 0; nbr = 0
+    for (p, s), (rc, raw) in zip(cases, rs):
+        o = None
+        if any(w in raw for w in ('DEADLOCK', 'ABORT', 'BUG ', 'TIMEOUT', 'STEP LIMIT')): o = 'abnormal run: ' + raw[-300:]
+        m = re.search(r'^(\d+) note forkwq rsowner (\d+) LIB', raw, flags=re.M)
+        if m and not o: o = 'at the fork point of thread %s the resize mutex is held by library thread %s: the work-queue thread is inside a resize, not parked' % (m.group(1), m.group(2))
+        nbr += len(re.findall(r' note forkwq ', raw))
+        if o:
+            nor += 1
+            if nor <= 3: ctx.fail('oracle', 'work-queue fork bracket (scen_lfhtx ops F / G)', o, concrete={'scenario': 'scen_lfhtx', 'prog': p, 'schedule': s, 'config': cfg, 'verdict': o})
+        blocks.append(project_wq(raw, p.count('/') + 1))
+    ctx.cov['evaluations'] += len(cases); ctx.cov['distinct_nontrivial'] += nbr
+    ctx.cov['oracle_violations'] = ctx.cov.get('oracle_violations', 0) + nor
+    ctx.cov['input_distribution']['work-queue fork brackets (scheduled)'] = {'cases': len(cases), 'fork_points_reached': nbr}
+    if driver:
+        rc, out, err = sh([driver], inp='\n'.join('\n'.join(b) for b in blocks) + '\n', timeout=300); res = out.splitlines(); nrej = 0
+        if len(res) != len(cases): ctx.fail('harness', 'wqpause_driver output', 'expected %d verdicts, got %d: %s' % (len(cases), len(res), err[-300:]))
+        else:
+            for (p, s), r in zip(cases, res):
+                if not r.startswith('ok'):
+                    nrej += 1
+                    if nrej <= 2: ctx.fail('correspondence', 'WqPause.wqexec accepts the flag accesses of src/workqueue.c', 'prog %s schedule %s...: %s' % (p, s[:60], r), concrete={'scenario': 'scen_lfhtx', 'prog': p, 'schedule': s, 'config': cfg, 'verdict': r})
+            ctx.cov['traces_validated_against_impl'] += len(cases) - nrej; ctx.cov['disagreements'] = ctx.cov.get('disagreements', 0) + nrej
+
 def replay(ctx, rp):
     f = rp.get('failing_input') or {}
     impl = build(ctx)
